@@ -60,8 +60,27 @@ func (e *Engine) instantiate(assumps []*Term, goal *Term, facts []*QFact) []*Ter
 					inst = c.Sub(inst, tg.t.Base)
 				}
 				if tg.t.Coef > 1 {
-					// any instance of a universal fact is sound; this one makes the trigger term match
-					inst = c.UDiv(inst, c.Const(64, tg.t.Coef))
+					// any instance of a universal fact is sound; this one makes the trigger term match.
+					// Divide exactly when every coefficient of the (linear) index is a multiple of the stride.
+					m := map[*Term]uint64{}
+					var k0 uint64
+					c.linearize(inst, 1, m, &k0)
+					sc := int64(tg.t.Coef)
+					exact := sc > 0 && int64(k0)%sc == 0
+					for _, co := range m {
+						if sc <= 0 || int64(co)%sc != 0 {
+							exact = false
+						}
+					}
+					if exact {
+						// (sum of multiples of the stride) / stride, coefficients read as signed
+						for a, co := range m {
+							m[a] = uint64(int64(co) / sc)
+						}
+						inst = c.fromLinear(inst.S, m, uint64(int64(k0)/sc))
+					} else {
+						inst = c.UDiv(inst, c.Const(64, tg.t.Coef))
+					}
 				}
 				key := fmt.Sprintf("%p/%d", tg.f, inst.ID)
 				if done[key] {
@@ -145,6 +164,11 @@ func (e *Engine) propagateEqs(assumps []*Term, goal *Term) ([]*Term, *Term, map[
 				continue
 			}
 			if _, dup := sub[x]; dup {
+				continue
+			}
+			if x.Op == OVar && mentionsRecApp(y) {
+				// keep cursor variables: rewriting them into sums of recursive size functions hides the
+				// simple order facts (old <= new <= len) that decide most bounds goals
 				continue
 			}
 			delete(sub, a) // the equation is used as a rewrite rule instead of a unit
@@ -464,4 +488,15 @@ func (e *Engine) SolveAll(obs []*Oblig, opts SolveOpts) *SolveStats {
 	close(ch)
 	wg.Wait()
 	return stats
+}
+
+
+func mentionsRecApp(t *Term) bool {
+	found := false
+	Walk([]*Term{t}, func(x *Term) {
+		if x.Op == OApp && strings.HasPrefix(x.Name, "rec.") {
+			found = true
+		}
+	})
+	return found
 }
